@@ -51,6 +51,9 @@ def run(chk, ctx):
                            rel=run_.rel, node=rec.node, nontrivial=False)
     shared.rule_work(chk, "C12.WORK", runs, skip_classes=(KEEP_ALL,))
     shared.rule_adv(chk, "C12.ADV", runs)
+    # ---- grammar: no two loads in a row, along whole production paths
+    from .c01 import rule_seq_paths
+    rule_seq_paths(chk, "C12.SEQ", ctx)
     # ---- grammar: quartet head
     g = Grammar(ctx.repo)
     for b, op in g.ops():
